@@ -36,6 +36,7 @@ ASSUMPTIONS = ["float products/sums of the dyadic table values are exact; each f
                "random.choices follows the weights (see C05); numpy.column_stack(...).tolist() transposes as modelled",
                "itertools.product enumerates the box (order irrelevant: maps are compared as maps)"]
 TRUSTED = ["itertools.product, collections.Counter, numpy.column_stack/tolist, dict insertion semantics: modelled, not verified"]
+PARTIAL = ['the clause "in the limit of many samples in sampling mode" (C06_full, a law of large numbers about the RNG oracle) is stated, not proved: proved is that sampling mode returns the empirical law of independent per-dimension weighted draws (C06_sampling_partial)', 'direct mode enumerates range(kmin, kmax) (upper bound excluded) while sampling mode draws from [kmin..kmax]: the two modes have different supports in the code itself; the specs follow the code', 'sampling mode: inputs on which CPython random.choices itself raises (all-zero or negative total weight -> ValueError; empty degree range kmax < kmin -> IndexError) are outside the model, which returns a table there (the scripted oracle does not reproduce CPython\'s validation); these inputs are outside the hypotheses of the property (non-negative marginals that are not all zero, non-empty ranges)']
 TECHNIQUE = ("Coq proof (exact rational laws of the five loaders, product-of-sums normaliser, empirical law lemmas, "
              "dispatcher idempotence) + verified checker + model/implementation correspondence")
 LEVEL_TEXT = (
